@@ -421,6 +421,13 @@ def check(ctx):
     # jittered position: per function key i, split per chain, applied to the same key's value
     jp = [(loc, val) for loc, val, _, _ in rb.stores if loc[0] == "s"
           and loc[1][0] == "dict" and loc[1][1] == ()]
+    if not jp:
+        # the same dict written as a comprehension (the normal form of the filling loop)
+        for t_, _, _ in rb.calls:
+            if t_[0] == "call" and t_[1][0] == "call" and is_call(t_[1], "jax.vmap") and t_[1][2] \
+                    and t_[1][2][0][0] == "a" and t_[1][2][0][2] == "update_state" and t_[2] \
+                    and t_[2][0][0] == "comp" and t_[2][0][1] == "dict":
+                jp = [(("s", ("dict", ()), t_[2][0][2][0]), t_[2][0][2][1])]
     ok_j = False
     if len(jp) == 1:
         loc, val = jp[0]
